@@ -26,7 +26,7 @@ def main() -> int:
     with open(sys.argv[2], "a") as out:
         for a in tasks:
             try:
-                r = run.program_task(tuple(a))
+                r = run.mode_task(tuple(a)) if str(a[0]).startswith("modes:") else run.program_task(tuple(a))
             except BaseException as e:  # noqa: BLE001
                 r = {"name": a[0], "src": a[1], "variants": [], "crash": repr(e)[:200]}
             out.write(json.dumps(r) + "\n")
